@@ -367,8 +367,8 @@ fn cmp(inj: &Jv, out: &Jv, path: &str) -> Result<(), (&'static str, &'static str
             let exp = if k == "int-beyond-64bit" { a.parse::<f64>().ok().map(N::F) } else { num_of(a) };
             match (exp, num_of(b)) {
                 (Some(x), Some(y)) if num_eq(x, y) => Ok(()),
-                (Some(N::F(x)), Some(N::F(y))) if x.is_finite() && y.is_finite() && (x.to_bits() as i128 - y.to_bits() as i128).abs() <= 2 => {
-                    Err((k, "float-off-by-ulp", path.to_string()))
+                (Some(N::F(x)), Some(N::F(y))) if x.is_finite() && y.is_finite() && (x.to_bits() as i128 - y.to_bits() as i128).abs() <= 8 => {
+                    Err((k, "float-off-by-few-ulp", path.to_string()))
                 }
                 (Some(N::I(x)), Some(N::F(y))) if k == "u64-above-i64max" && (x as f64) == y => Err((k, "rounded-to-nearest-double", path.to_string())),
                 _ => Err((k, "value-changed", path.to_string())),
